@@ -96,6 +96,17 @@ pub enum Pools {
     AllPlusTransparent,
 }
 
+/// Lock policy configured on the `GreedyInputSelector` *instance* (`with_locked_input_policy`).
+/// Documented to govern shielding only; a transfer is governed by the per-call
+/// `SpendPolicy::locked_input_policy`, so for `propose_transfer` this dimension must be inert.
+#[derive(Clone, Copy, Debug, Default, PartialEq, Eq, Hash, PartialOrd, Ord, Serialize, Deserialize)]
+pub enum SelPol {
+    #[default]
+    Default,
+    PreferUnlockedX,
+    PreferLockedX,
+}
+
 #[derive(Clone, Debug, PartialEq, Eq, Hash, PartialOrd, Ord, Serialize, Deserialize)]
 pub struct Req {
     pub entry: Entry,
@@ -109,11 +120,26 @@ pub struct Req {
     pub everything: bool,
     /// lock request: (owner index, for_blocks)
     pub lock: Option<(u8, u32)>,
+    /// selector-instance lock policy (propose_transfer only)
+    #[serde(default)]
+    pub selpol: SelPol,
 }
 
 impl Req {
     pub fn key(&self) -> String {
-        format!("{:?}/{:?}/{:?}/{:?}/{:?}/{:?}/{:?}{}{}", self.entry, self.amt, self.rcpt, self.conf, self.lockpol, self.chg, self.pools, if self.everything { "/everything" } else { "" }, self.lock.map(|(o, b)| format!("/lock({o},{b})")).unwrap_or_default())
+        format!(
+            "{:?}/{:?}/{:?}/{:?}/{:?}/{:?}/{:?}{}{}{}",
+            self.entry,
+            self.amt,
+            self.rcpt,
+            self.conf,
+            self.lockpol,
+            self.chg,
+            self.pools,
+            if self.everything { "/everything" } else { "" },
+            self.lock.map(|(o, b)| format!("/lock({o},{b})")).unwrap_or_default(),
+            if self.selpol == SelPol::Default { String::new() } else { format!("/selector:{:?}", self.selpol) }
+        )
     }
 }
 
@@ -294,7 +320,7 @@ fn eligible(v: &NoteView, target: u32, pol: &ConfirmationsPolicy, overridable: &
 /// (ConfirmationsPolicy::confirmations_until_spendable, Transparent arm), else `untrusted`
 /// confirmations (coins of the universe are third-party receipts at an external address).
 fn utxo_eligible(t: &UtxoView, target: u32, pol: &ConfirmationsPolicy, overridable: &BTreeSet<u8>) -> bool {
-    t.owner == Owner::A && t.known && (pol.allow_zero_conf_shielding() || t.mined.is_some_and(|h| target - h >= u32::from(pol.untrusted()))) && !t.lock.is_some_and(|(o, e)| e >= target && !overridable.contains(&o))
+    t.owner == Owner::A && t.known && !t.spent_on_chain && !t.pending_spent && (pol.allow_zero_conf_shielding() || t.mined.is_some_and(|h| target - h >= u32::from(pol.untrusted()))) && !t.lock.is_some_and(|(o, e)| e >= target && !overridable.contains(&o))
 }
 
 fn overridable(l: LockPol) -> BTreeSet<u8> {
@@ -353,7 +379,11 @@ fn call(env: &Env, w: &mut Wallet, req: &Req, amount: u64) -> Result<Result<AnyP
                 if req.pools == Pools::AllPlusTransparent {
                     sp = sp.with_transparent(TransparentSpendPolicy::any_account_addr());
                 }
-                let sel = GreedyInputSelector::<Db>::new();
+                let sel = match req.selpol {
+                    SelPol::Default => GreedyInputSelector::<Db>::new(),
+                    SelPol::PreferUnlockedX => GreedyInputSelector::<Db>::new().with_locked_input_policy(lock_policy(LockPol::PreferUnlockedX)),
+                    SelPol::PreferLockedX => GreedyInputSelector::<Db>::new().with_locked_input_policy(lock_policy(LockPol::PreferLockedX)),
+                };
                 match req.chg {
                     Chg::Single => {
                         let cs = SingleOutputChangeStrategy::<StandardFeeRule, Db>::new(StandardFeeRule::Zip317, None, ShieldedPool::Sapling, DustOutputPolicy::default());
@@ -591,6 +621,12 @@ fn check_proposal<N>(
             if val != v.value {
                 return Err(format!("step {si}: selected transparent input {name} carries value {val}, ground truth {}", v.value));
             }
+            if v.spent_on_chain {
+                return Err(format!("step {si}: selected transparent input {name} is spent by a transaction mined in a scanned block"));
+            }
+            if v.pending_spent {
+                return Err(format!("step {si}: selected transparent input {name} is spent by a stored pending transaction that has not expired (target height {target}, stored {:?})", m.stored));
+            }
             if !pol.allow_zero_conf_shielding() {
                 let need = u32::from(pol.untrusted());
                 match v.mined {
@@ -669,8 +705,11 @@ fn check_proposal<N>(
         if utxos.iter().any(|t| t.owner == Owner::A && t.known && !used.contains(&t.key) && t.lock.is_some_and(|(o, e)| e >= target && !ovr.contains(&o))) {
             outs.push("ok:locked-coin-skipped".into());
         }
-        if utxos.iter().any(|t| t.owner == Owner::A && t.known && !used.contains(&t.key) && !utxo_eligible(t, target, pol, &(0u8..3).collect())) {
+        if utxos.iter().any(|t| t.owner == Owner::A && t.known && !used.contains(&t.key) && !t.pending_spent && !t.spent_on_chain && !utxo_eligible(t, target, pol, &(0u8..3).collect())) {
             outs.push("ok:unconfirmed-coin-skipped".into());
+        }
+        if utxos.iter().any(|t| t.owner == Owner::A && t.known && !used.contains(&t.key) && t.pending_spent) {
+            outs.push("ok:pending-spent-coin-skipped".into());
         }
     }
     Ok((outs, order, paid_total.max(0) as u64))
@@ -688,16 +727,21 @@ pub struct Lattice {
 }
 
 fn rq(entry: Entry, amt: Amt, rcpt: Rcpt, conf: Conf, lockpol: LockPol, chg: Chg, pools: Pools, everything: bool) -> Req {
-    Req { entry, amt, rcpt, conf, lockpol, chg, pools, everything, lock: None }
+    Req { entry, amt, rcpt, conf, lockpol, chg, pools, everything, lock: None, selpol: SelPol::Default }
 }
 
-/// Three sizes of the request lattice: level 0 = core, 1 = quick, 2 = thorough.
+fn with_sel(mut r: Req, s: SelPol) -> Req {
+    r.selpol = s;
+    r
+}
+
+/// Four sizes of the request lattice: level 0 = mini, 1 = core, 2 = quick, 3 = thorough.
 pub fn lattice(level: usize) -> Lattice {
     use Amt::*;
     let mut v = vec![];
     let confs = [Conf::Min, Conf::Default];
     let lps = [LockPol::Exclude, LockPol::PreferUnlockedX, LockPol::PreferLockedX, LockPol::PreferUnlockedXY];
-    if level >= 2 {
+    if level >= 3 {
         let amts = [Fixed(30_000), Fixed(100_000), Fixed(1_000_000), Fixed(2_000_000), Fixed(5_000_000), Fixed(1_250_000), UbMinus(MIN_FEE), UbMinus(MIN_FEE - 1), UbPlus(1)];
         for a in amts {
             for r in [Rcpt::Sapling, Rcpt::Unified, Rcpt::Transparent, Rcpt::Tex] {
@@ -754,7 +798,9 @@ pub fn lattice(level: usize) -> Lattice {
             for r in [Rcpt::Sapling, Rcpt::Unified, Rcpt::Transparent] {
                 for c in [Conf::Min, Conf::Default, Conf::NoZeroConf] {
                     for l in [LockPol::Exclude, LockPol::PreferLockedX] {
-                        v.push(rq(Entry::Transfer, a, r, c, l, Chg::Single, Pools::AllPlusTransparent, false));
+                        for sp in [SelPol::Default, SelPol::PreferUnlockedX, SelPol::PreferLockedX] {
+                            v.push(with_sel(rq(Entry::Transfer, a, r, c, l, Chg::Single, Pools::AllPlusTransparent, false), sp));
+                        }
                     }
                 }
             }
@@ -764,10 +810,10 @@ pub fn lattice(level: usize) -> Lattice {
             describe: "thorough: propose_transfer {30k,100k,1M/2M/5M (canonical ZIP 318 denominations whose oldest single covering Orchard note lies before / at / after the bucketed anchor boundary),1.25M,UB-10000,UB-9999,UB+1} x {Sapling,UA/Orchard,P2PKH,TEX} x {MIN,3/10} x {Exclude,PreferUnlocked{X},PreferLocked{X},PreferUnlocked{X,Y}} x {single,split change}; \
                        Sapling-only spend policy for 3 amounts x 2 recipients x 2 x 2; propose_standard_transfer_to_address 9 amounts x 3 recipients x 2 policies; propose_send_max_transfer 4 recipients x 2 x 4 x {all pools,Sapling only} x {MaxSpendable,Everything}, \
                        each MaxSpendable one followed by propose_transfer of exactly the send-max amount and of that amount + 1 (single and split change); \
-                       propose_shielding thresholds {10k,85k,UB,UB+1} x {MIN,3/10,1/2 without zero-conf} x 4 lock policies; propose_transfer with transparent spending permitted {30k,100k,1.25M,UB-9999,UB+1} x 3 recipients x 3 policies x {Exclude,PreferLocked{X}}"
+                       propose_shielding thresholds {10k,85k,UB,UB+1} x {MIN,3/10,1/2 without zero-conf} x 4 lock policies; propose_transfer with transparent spending permitted {30k,100k,1.25M,UB-9999,UB+1} x 3 recipients x 3 policies x {Exclude,PreferLocked{X}} x selector-instance lock policy {default,PreferUnlocked{X},PreferLocked{X}}"
                 .into(),
         }
-    } else if level == 1 {
+    } else if level == 2 {
         for a in [Fixed(30_000), Fixed(100_000), Fixed(1_000_000), UbMinus(MIN_FEE - 1)] {
             for r in [Rcpt::Sapling, Rcpt::Unified] {
                 for c in confs {
@@ -836,15 +882,24 @@ pub fn lattice(level: usize) -> Lattice {
                 }
             }
         }
+        // the selector-instance lock policy crossed with the per-call one (must be inert for transfers)
+        for a in [Fixed(30_000), Fixed(100_000)] {
+            for l in [LockPol::Exclude, LockPol::PreferLockedX] {
+                for sp in [SelPol::PreferUnlockedX, SelPol::PreferLockedX] {
+                    v.push(with_sel(rq(Entry::Transfer, a, Rcpt::Sapling, Conf::Min, l, Chg::Single, Pools::AllPlusTransparent, false), sp));
+                }
+            }
+        }
+        v.push(with_sel(rq(Entry::Transfer, Fixed(100_000), Rcpt::Unified, Conf::Default, LockPol::Exclude, Chg::Single, Pools::All, false), SelPol::PreferLockedX));
         Lattice {
             reqs: v,
             describe: "quick (pruned): propose_transfer {30k,100k,1M,UB-9999} x {Sapling,UA/Orchard} x {MIN,3/10} x 4 lock policies, single change; canonical 2M and 5M (covering Orchard note mined at / after the bucketed anchor boundary) to UA x 2 x 4 and through propose_standard_transfer_to_address x 2; split change for {30k,100k} x 2 recipients x 2 x {Exclude,PreferLocked{X}}; \
                        P2PKH and TEX recipients for 30k x 2 x {Exclude,PreferUnlocked{X,Y}}; one Sapling-only spend policy request per confirmation policy; propose_standard_transfer_to_address 1.25M x 3 recipients x 2 and 30k to P2PKH x 2; \
                        propose_send_max_transfer 2 recipients x 2 x {Exclude,PreferUnlocked{X,Y}} MaxSpendable and x Exclude Everything, the Exclude one followed by propose_transfer of exactly that amount and of that amount + 1; \
-                       propose_shielding thresholds {10k,UB+1} x {MIN,3/10,1/2 without zero-conf} x {Exclude,PreferUnlocked{X,Y}}; propose_transfer with transparent spending permitted {100k,UB-9999} to Sapling x {MIN,1/2 without zero-conf} x {Exclude,PreferLocked{X}}"
+                       propose_shielding thresholds {10k,UB+1} x {MIN,3/10,1/2 without zero-conf} x {Exclude,PreferUnlocked{X,Y}}; propose_transfer with transparent spending permitted {100k,UB-9999} to Sapling x {MIN,1/2 without zero-conf} x {Exclude,PreferLocked{X}}; selector-instance lock policy {PreferUnlocked{X},PreferLocked{X}} x per-call {Exclude,PreferLocked{X}} x {30k,100k} with transparent spending permitted (and one shielded-only request)"
                 .into(),
         }
-    } else {
+    } else if level == 1 {
         for r in [Rcpt::Sapling, Rcpt::Unified] {
             for c in confs {
                 v.push(rq(Entry::Transfer, Fixed(100_000), r, c, LockPol::Exclude, Chg::Single, Pools::All, false));
@@ -860,10 +915,27 @@ pub fn lattice(level: usize) -> Lattice {
         }
         v.push(rq(Entry::Shield, Fixed(10_000), Rcpt::Sapling, Conf::Min, LockPol::Exclude, Chg::Single, Pools::All, false));
         v.push(rq(Entry::Transfer, Fixed(100_000), Rcpt::Sapling, Conf::Min, LockPol::Exclude, Chg::Single, Pools::AllPlusTransparent, false));
+        v.push(with_sel(rq(Entry::Transfer, Fixed(100_000), Rcpt::Sapling, Conf::Min, LockPol::Exclude, Chg::Single, Pools::AllPlusTransparent, false), SelPol::PreferUnlockedX));
         Lattice {
             reqs: v,
             describe: "core: propose_transfer 100k x {Sapling,UA/Orchard} x {MIN,3/10} Exclude, 100k to Sapling MIN PreferLocked{X}, 30k to TEX; canonical ZIP 318 crossings 2M and 5M to UA under MIN; \
-                       propose_send_max_transfer (MaxSpendable: selects every eligible note) to Sapling under (MIN,Exclude), (3/10,Exclude), (MIN,PreferUnlocked{X,Y}); propose_shielding threshold 10k under MIN; propose_transfer 100k with transparent spending permitted"
+                       propose_send_max_transfer (MaxSpendable: selects every eligible note) to Sapling under (MIN,Exclude), (3/10,Exclude), (MIN,PreferUnlocked{X,Y}); propose_shielding threshold 10k under MIN; propose_transfer 100k with transparent spending permitted, with the default selector and with a selector instance configured PreferUnlocked{X}"
+                .into(),
+        }
+    } else {
+        // the broadest detectors only: send-max selects every eligible note, shielding every eligible coin
+        for c in confs {
+            v.push(rq(Entry::SendMax, Fixed(0), Rcpt::Sapling, c, LockPol::Exclude, Chg::Single, Pools::All, false));
+        }
+        v.push(rq(Entry::Shield, Fixed(10_000), Rcpt::Sapling, Conf::Min, LockPol::Exclude, Chg::Single, Pools::All, false));
+        v.push(with_sel(rq(Entry::Transfer, Fixed(100_000), Rcpt::Sapling, Conf::Min, LockPol::Exclude, Chg::Single, Pools::AllPlusTransparent, false), SelPol::PreferUnlockedX));
+        v.push(rq(Entry::Transfer, Fixed(100_000), Rcpt::Unified, Conf::Default, LockPol::Exclude, Chg::Single, Pools::All, false));
+        v.push(rq(Entry::Transfer, Fixed(100_000), Rcpt::Sapling, Conf::Min, LockPol::PreferLockedX, Chg::Single, Pools::All, false));
+        v.push(rq(Entry::Transfer, Fixed(5_000_000), Rcpt::Unified, Conf::Min, LockPol::Exclude, Chg::Single, Pools::All, false));
+        Lattice {
+            reqs: v,
+            describe: "mini (last level only): propose_send_max_transfer to Sapling x {MIN,3/10} Exclude (selects every eligible note); propose_shielding 10k under MIN (every eligible coin); propose_transfer 100k with transparent spending permitted and a selector instance configured PreferUnlocked{X}; \
+                       100k to UA under 3/10; 100k to Sapling under MIN PreferLocked{X}; canonical 5M to UA under MIN"
                 .into(),
         }
     }
